@@ -7,18 +7,9 @@ open Asts Asts.L1c
 theorem normC_of_normCB {h : Hashing} {i : SyncIn} (hb : normCB h i = true) : NormC h i := by
   unfold normCB at hb
   simp only [Bool.and_eq_true, List.all_eq_true, decide_eq_true_eq, beq_iff_eq, Bool.not_eq_true', Bool.or_eq_true] at hb
-  obtain ⟨⟨⟨⟨⟨⟨⟨⟨⟨hspec, hpart⟩, hpods⟩, hmax⟩, hdist⟩, hrev⟩, hsm⟩, hsmR⟩, hsmB⟩, hgone⟩ := hb
+  obtain ⟨⟨⟨⟨⟨⟨⟨⟨hspec, hpods⟩, hmax⟩, hdist⟩, hrev⟩, hsm⟩, hsmR⟩, hsmB⟩, hgone⟩ := hb
   have hs := (specOk_iff i).1 hspec
-  refine ⟨hs, ?_, ?_, ?_, ?_, ?_, hsm, hsmR, hsmB, hgone⟩
-  · rcases hpart with h1 | h1
-    · exact Or.inl h1
-    · right
-      cases hru : i.view.ru with
-      | none => rw [hru] at h1; cases h1
-      | some x =>
-        cases x with
-        | none => rw [hru] at h1; cases h1
-        | some p => rw [hru] at h1; exact ⟨p, rfl, by simpa using h1⟩
+  refine ⟨hs, ?_, ?_, ?_, ?_, hsm, hsmR, hsmB, hgone⟩
   · intro c hc
     obtain ⟨⟨⟨⟨⟨⟨a1, a2⟩, a3⟩, a4⟩, a5⟩, a6⟩, a7⟩ := hpods c hc
     exact ⟨a1, a2, a3, a4, a5, hmax c hc, a6, a7⟩
@@ -38,11 +29,24 @@ theorem normC_of_normCB {h : Hashing} {i : SyncIn} (hb : normCB h i = true) : No
       simp only [hl, Bool.and_eq_true, Bool.not_eq_true'] at hrev
       exact hrev.2
 
+theorem partOk_of_partB {v : SetView} (hb : partB v = true) : PartOk v := by
+  unfold partB at hb
+  simp only [Bool.or_eq_true, beq_iff_eq] at hb
+  rcases hb with h1 | h1
+  · exact Or.inl h1
+  · right
+    cases hru : v.ru with
+    | none => rw [hru] at h1; cases h1
+    | some x =>
+      cases x with
+      | none => rw [hru] at h1; cases h1
+      | some p => rw [hru] at h1; exact ⟨p, rfl, by simpa using h1⟩
+
 theorem parK_of_normB {h : Hashing} {i : SyncIn} (hb : normB h i = true) : ParK h (settle i) := by
   unfold normB at hb
   simp only [Bool.and_eq_true] at hb
-  obtain ⟨⟨h1, h2⟩, h3⟩ := hb
-  exact ⟨nsc_settle (normC_of_normCB h1) (by simpa [roomB] using h2), h3⟩
+  obtain ⟨⟨⟨h1, hp⟩, h2⟩, h3⟩ := hb
+  exact ⟨nsc_settle (normC_of_normCB h1) (by simpa [roomB] using h2), h3, partOk_of_partB hp⟩
 
 theorem settleOne_fs (c : CPod) : (settleOne c).pod.fs = c.pod.fs := by
   unfold settleOne
@@ -56,11 +60,8 @@ theorem settleOne_fs (c : CPod) : (settleOne c).pod.fs = c.pod.fs := by
       · exact absurd hh hfs
     rw [this]; rfl
 
-theorem monoK_of_normOB {h : Hashing} {i : SyncIn} (hb : normOB h i = true) : MonoK h (settle i) := by
-  unfold normOB at hb
-  simp only [Bool.and_eq_true, Bool.not_eq_true'] at hb
-  obtain ⟨⟨⟨h1, h2⟩, h3⟩, h4⟩ := hb
-  have hn := normC_of_normCB h1
+theorem monoK0_settle {h : Hashing} {i : SyncIn} (hn : NormC h i) (h2 : roomB i = true) (h3 : i.view.parallel = false)
+    (h4 : noFsOutB i = true) : MonoK0 h (settle i) := by
   refine ⟨nsc_settle hn (by simpa [roomB] using h2), h3, ?_⟩
   intro x hx hfs
   rw [settle_pods] at hx
@@ -77,6 +78,12 @@ theorem monoK_of_normOB {h : Hashing} {i : SyncIn} (hb : normOB h i = true) : Mo
   simp only [hc0fs, Bool.not_true, Bool.false_or, List.contains_iff_mem] at this
   rw [← e2]
   exact (mem_desired_iff hn _).1 this
+
+theorem monoK_of_normOB {h : Hashing} {i : SyncIn} (hb : normOB h i = true) : MonoK h (settle i) := by
+  unfold normOB at hb
+  simp only [Bool.and_eq_true, Bool.not_eq_true'] at hb
+  obtain ⟨⟨⟨⟨h1, hp⟩, h2⟩, h3⟩, h4⟩ := hb
+  exact ⟨monoK0_settle (normC_of_normCB h1) h2 h3 h4, partOk_of_partB hp⟩
 
 /-- **convergence, Parallel** -/
 theorem converge_parallel {h : Hashing} {i : SyncIn} (hb : normB h i = true) :
@@ -141,14 +148,11 @@ open Asts Asts.L1c
 theorem parK_of_normB_settled {h : Hashing} {i : SyncIn} (hb : normB h (settle i) = true) : ParK h (settle i) := by
   unfold normB at hb
   simp only [Bool.and_eq_true] at hb
-  obtain ⟨⟨h1, h2⟩, h3⟩ := hb
-  exact ⟨⟨normC_of_normCB h1, settle_idPos i, settle_settled i, by simpa [roomB] using h2⟩, h3⟩
+  obtain ⟨⟨⟨h1, hp⟩, h2⟩, h3⟩ := hb
+  exact ⟨⟨normC_of_normCB h1, settle_idPos i, settle_settled i, by simpa [roomB] using h2⟩, h3, partOk_of_partB hp⟩
 
-theorem monoK_of_normOB_settled {h : Hashing} {i : SyncIn} (hb : normOB h (settle i) = true) : MonoK h (settle i) := by
-  unfold normOB at hb
-  simp only [Bool.and_eq_true, Bool.not_eq_true'] at hb
-  obtain ⟨⟨⟨h1, h2⟩, h3⟩, h4⟩ := hb
-  have hn := normC_of_normCB h1
+theorem monoK0_settled {h : Hashing} {i : SyncIn} (hn : NormC h (settle i)) (h2 : roomB (settle i) = true)
+    (h3 : i.view.parallel = false) (h4 : noFsOutB (settle i) = true) : MonoK0 h (settle i) := by
   refine ⟨⟨hn, settle_idPos i, settle_settled i, by simpa [roomB] using h2⟩, h3, ?_⟩
   intro x hx hfs
   unfold noFsOutB at h4
@@ -157,5 +161,11 @@ theorem monoK_of_normOB_settled {h : Hashing} {i : SyncIn} (hb : normOB h (settl
   have hxfs : (x.pod.failed || x.pod.succeeded) = true := hfs
   simp only [hxfs, Bool.not_true, Bool.false_or, List.contains_iff_mem] at this
   exact (mem_desired_iff hn _).1 this
+
+theorem monoK_of_normOB_settled {h : Hashing} {i : SyncIn} (hb : normOB h (settle i) = true) : MonoK h (settle i) := by
+  unfold normOB at hb
+  simp only [Bool.and_eq_true, Bool.not_eq_true'] at hb
+  obtain ⟨⟨⟨⟨h1, hp⟩, h2⟩, h3⟩, h4⟩ := hb
+  exact ⟨monoK0_settled (normC_of_normCB h1) h2 h3 h4, partOk_of_partB hp⟩
 
 end Asts.C02p
